@@ -68,3 +68,51 @@ package kvql
 //@   assigns ctx.Hit, mapof(ctx.FieldCaches)
 //@   ensures (err == nil) == evalok(e, val(kv.Key), val(kv.Value))
 //@   ensures err == nil ==> result == evalv(e, val(kv.Key), val(kv.Value))
+//
+// ---------------------------------------------------------------- cursors (A-STORE)
+//
+// A cursor iterates over a snapshot: ckey(c, i) / cval(c, i) for 0 <= i < clen(c),
+// keys strictly ascending (axiom csorted); cpos(c) pairs have been consumed.
+//@ specfun ckey(Int, Int) B
+//@ specfun cval(Int, Int) B
+//@ specfun clen(Int) Int
+//@ ghostfield cpos(Cursor) Int
+//@ define wfCur(c Cursor) Bool = c != nil && 0 <= cpos(c) && cpos(c) <= clen(c)
+//@ axiom csorted(c Cursor, i Int, j Int): 0 <= i && i < j && j < clen(c) ==> ckey(c, i) < ckey(c, j)
+//
+//@ iface (s Storage) Cursor() (cursor Cursor, err error)
+//@   requires nofail: !failed
+//@   assigns nops, failed, lastErr
+//@   ensures nops == old(nops) + 1 && nmut == old(nmut)
+//@   ensures err == nil ==> cursor != nil && fresh(cursor) && cpos(cursor) == 0 && clen(cursor) >= 0
+//@   ensures (err != nil ==> failed && lastErr == err) && (err == nil ==> !failed)
+//
+//@ iface (c Cursor) Seek(prefix []byte) (err error)
+//@   requires nofail: !failed
+//@   requires c != nil
+//@   assigns cpos(c), nops, failed, lastErr
+//@   ensures nops == old(nops) + 1
+//@   ensures err == nil ==> wfCur(c) && (cpos(c) > 0 ==> ckey(c, cpos(c) - 1) < val(prefix)) && (cpos(c) < clen(c) ==> val(prefix) <= ckey(c, cpos(c)))
+//@   ensures (err != nil ==> failed && lastErr == err) && (err == nil ==> !failed)
+//
+//@ iface (c Cursor) Next() (key []byte, value []byte, err error)
+//@   requires nofail: !failed
+//@   requires wfCur(c)
+//@   assigns cpos(c), nops, failed, lastErr
+//@   ensures nops == old(nops) + 1 && wfCur(c)
+//@   ensures err == nil && old(cpos(c)) < clen(c) ==> cpos(c) == old(cpos(c)) + 1 && !isnil(key) && val(key) == ckey(c, old(cpos(c))) && val(value) == cval(c, old(cpos(c)))
+//@   ensures err == nil && old(cpos(c)) >= clen(c) ==> cpos(c) == old(cpos(c)) && isnil(key) && isnil(value)
+//@   ensures err != nil ==> cpos(c) == old(cpos(c))
+//@   ensures (err != nil ==> failed && lastErr == err) && (err == nil ==> !failed)
+//
+// Point reads: sget(k) / shas(k) is the store's content as seen by Get (the store is
+// not written while a SELECT runs: nmut is outside every read-only plan's frame).
+//@ specfun shas(B) Bool
+//@ specfun sget(B) B
+//@ ghostvar lastGet B
+//@ iface (s Storage) Get(key []byte) (value []byte, err error)
+//@   requires nofail: !failed
+//@   assigns nops, failed, lastErr, lastGet
+//@   ensures nops == old(nops) + 1 && lastGet == val(key)
+//@   ensures err == nil ==> (isnil(value) == !shas(val(key))) && (shas(val(key)) ==> val(value) == sget(val(key)))
+//@   ensures (err != nil ==> failed && lastErr == err) && (err == nil ==> !failed)
